@@ -12,6 +12,8 @@ CONSTANTS Family = "bsc"
           MaxStored = 5
           MaxLen = 6
           EmitOn = FALSE
+          Sprint = 0
+          SpanEnd = 0
           TwoBranch = FALSE
           TraceLen = 0
 VIEW View
